@@ -35,7 +35,10 @@ def check_case(kind, depth, acc, apex, cs, part, full_cache):
             mk().visit_leaves(lambda pos, tile: leaves.append((tuple(pos), tile)), parallel=1)
             ops = []
             mk().walk(lambda pos: ops.append(tuple(pos)), parallel=1)
-            gen = [(tuple(p), t) for p, t in mk()._generator()]
+            pyr = mk()
+            # the pyramid-level enumeration is a non-public seam; if a refactoring removes it the clause is
+            # skipped (and counted), not reported
+            gen = [(tuple(p), t) for p, t in pyr._generator()] if hasattr(pyr, "_generator") else None
     except Exception as e:
         bad("raises:%s" % type(e).__name__, repr(e))
         return
@@ -66,6 +69,11 @@ def check_case(kind, depth, acc, apex, cs, part, full_cache):
         if (n_leaf, n_live, n_ops) != closed:
             bad("closed-form", "counts %r, closed form %r" % ((n_leaf, n_live, n_ops), closed))
     # enumeration: exactly once, children before the position
+    if gen is None:
+        part.count("generator_clause_skipped_private_api_absent")
+        gen = []
+        model_visited_backup = model.visited
+        model.visited = []
     gpos = [g[0] for g in gen]
     if len(set(gpos)) != len(gpos):
         bad("generator-duplicate", "a position was yielded twice")
